@@ -928,7 +928,7 @@ package lang
 // lemma L1 (DESIGN.md section 5).  next and exit are proved consumed.
 //@ spec func isScopedFlow(err error) bool = err == errBreak || err == errContinue || err == errReturn
 //@ spec func drvOK(e *Evaluator) bool = e != nil && e.lexer != nil && frameOK(e.stackTop) && e.evalDepth == 0 && 0 < evalDepthLimit
-//@ func EvalProgram [C01,C02,C03,C11,C14]
+//@ func EvalProgram [C01,C02,C03,C04,C11,C14]
 //@   requires !$faulted
 //@   updates $faulted, $out
 //@   ensures[C01] errkind: err == nil || isSyn(err) || isRT(err) || isJsonErr(err) || isScopedFlow(err)
@@ -946,6 +946,9 @@ package lang
 //@   after Evaluator.evalStatement: $mark = $alloc
 //@   assert[C03] previous-file-was-read-to-its-end: !$pendingFile @ encoding/json.NewDecoder
 //@   assert[C03] rules-run-on-complete-values-only: $lastDecode == nil @ Evaluator.evalPatternRules
+//@   assert[C03,C14] output-goes-straight-to-the-callers-writer: arg2 == stdout @ NewEvaluator
+//@   assert[C03,C14] selector-output-goes-straight-to-the-callers-writer: arg2 == stdout @ EvalExpression
+//@   assert?[C04,C14] the-processed-root-is-what-o-will-serialise: rule.Kind == EndFileRule ==> ev.root == rootCell @ Evaluator.evalStatement
 //@   assert[C02] file-variable-names-the-file-being-read: arg1 == "$file" && arg2 != nil && arg2.Value.Tag == ValueStr && *arg2.Value.Str == file.Name @ Evaluator.setGlobal
 //@   assert[C02] pattern-rules-see-the-selected-root: ev.root == rootCell && arg1 == ev.patternRules @ Evaluator.evalPatternRules
 //@   assert?[C02] begin-and-end-rules-see-a-fresh-null: rule.Kind != BeginFileRule && rule.Kind != EndFileRule ==> ev.ruleRoot != nil && ev.ruleRoot.Value.Tag == ValueNil && ev.ruleRoot.Value.ParentObj == nil && newerThan(ev.ruleRoot, $mark) && arg1 == rule.Body @ Evaluator.evalStatement
